@@ -69,6 +69,13 @@ bool BrowserPrivate::updateService(const QByteArray &fqName)
     QByteArray serviceName = fqName.left(index);
     QByteArray serviceType = fqName.mid(index + 1);
 
+    // Only services of the type being browsed for are of interest: a PTR
+    // record may point anywhere (even at the root name, which leaves the
+    // type empty) and a shared cache holds records of other types as well
+    if (serviceType.isEmpty() || (type != MdnsBrowseType && serviceType != type)) {
+        return false;
+    }
+
     // Immediately return if a PTR record does not exist
     Record ptrRecord;
     if (!cache->lookupRecord(serviceType, PTR, ptrRecord)) {
